@@ -10,13 +10,13 @@ run_one() {
   rm -rf $wt; git -C /repo worktree add --detach $wt HEAD >/dev/null 2>&1
   (cd $wt && (git apply $ROOT/seeded/$id/patch.diff 2>/dev/null || git apply -3 $ROOT/seeded/$id/patch.diff 2>/dev/null)) || { echo "$id PATCH-FAILED"; git -C /repo worktree remove --force $wt; return; }
   start=$(date +%s)
-  VERIF_REPO=$wt VERIF_EVIDENCE_DIR=$MX/ev/$id $ROOT/check $prop --tier ${TIER:-quick} > $MX/log/$id.log 2>&1; rc=$?
+  VERIF_REPO=$wt VERIF_EVIDENCE_DIR=$MX/ev/$id $ROOT/check $prop --tier ${TIER:-quick} ${SEED:+--seed $SEED} > $MX/log/$id.s${SEED:-1}.log 2>&1; rc=$?
   end=$(date +%s)
-  v=$(grep -c '^VIOLATION' $MX/log/$id.log)
-  nf=$(grep -c 'no-failing-input-found' $MX/log/$id.log)
+  v=$(grep -c '^VIOLATION' $MX/log/$id.s${SEED:-1}.log)
+  nf=$(grep -c 'no-failing-input-found' $MX/log/$id.s${SEED:-1}.log)
   echo "$id rc=$rc violations=$v no-failing-input=$nf secs=$((end-start))"
   git -C /repo worktree remove --force $wt
   TAG=$(echo "$wt" | md5sum | cut -c1-8); rm -f $ROOT/bin/glcheck.$TAG $ROOT/bin/glcheck-race.$TAG $ROOT/.work/go.$TAG.*
 }
-export -f run_one; export ROOT MX TIER
+export -f run_one; export ROOT MX TIER SEED
 echo $ids | tr ' ' '\n' | xargs -P ${PAR:-4} -I{} bash -c 'run_one {}'
